@@ -230,6 +230,11 @@ func c17Gen(c *Ctx) {
 	c.Each(n3, func(i int, t *T) {
 		r := t.R
 		np := r.Intn(10)
+		long := i%40 == 7 // strings of 60..1600 pieces: scratch buffers of 64/256/1024/4096 bytes, growth policies
+		if long {
+			np = 60 + r.Intn([]int{40, 200, 600, 1540}[r.Intn(4)])
+			t.C.Count("long-strings", fmt.Sprintf("%d00+ pieces", np/100))
+		}
 		var s []byte
 		for j := 0; j < np; j++ {
 			if r.Intn(12) == 0 {
@@ -303,6 +308,9 @@ func c17Gen(c *Ctx) {
 			// a grammar identifier, sometimes damaged
 			var id []byte
 			words := 1 + r.Intn(4)
+			if long {
+				words = 20 + r.Intn(400)
+			}
 			for w := 0; w < words; w++ {
 				if w > 0 {
 					id = append(id, '_')
@@ -408,5 +416,5 @@ func c17Shrink(in []int64) [][]int64 {
 
 func init() {
 	Register(&Prop{ID: "C17", Num: 17, SpecMode: "rel", Gen: c17Gen, Impl: c17Impl, Shrink: c17Shrink, Describe: c17Describe,
-		Rule: "part 1 (exhaustive): every string of <= 3 (thorough 4) pieces over {a Z _ é € 😀 U+FFFD 0xff 0x80 E2-82} with Sub/Mask/SubByDisplay arguments from -1/0 to beyond the rune count and all other helpers; part 2 (exhaustive): every string of length <= 4 (6) over {a z _ 0 A é} through the case converters and their round trip; part 3: random strings of up to 9 pieces (16 pieces incl. surrogate/overlong/too-large encodings, random raw bytes) with in-range, edge, MaxInt-k, 2^31..2^62 and negative arguments. distinct = distinct (op, string, arguments); non-trivial = the string has >= 2 runes and a non-ASCII byte (identifier families: length >= 3; small/Mask additionally start+end < rune count)"})
+		Rule: "part 1 (exhaustive): every string of <= 3 (thorough 4) pieces over {a Z _ é € 😀 U+FFFD 0xff 0x80 E2-82} with Sub/Mask/SubByDisplay arguments from -1/0 to beyond the rune count and all other helpers; part 2 (exhaustive): every string of length <= 4 (6) over {a z _ 0 A é} through the case converters and their round trip; part 3: random strings of up to 9 pieces, one in 40 of 60..1600 pieces / identifiers of 20..420 words (16 pieces incl. surrogate/overlong/too-large encodings, random raw bytes) with in-range, edge, MaxInt-k, 2^31..2^62 and negative arguments. distinct = distinct (op, string, arguments); non-trivial = the string has >= 2 runes and a non-ASCII byte (identifier families: length >= 3; small/Mask additionally start+end < rune count)"})
 }
